@@ -75,6 +75,8 @@ YO.update(OP_YO)
 OPTS = [("-c", "check"), ("--check", "check"), ("-d", "debug"), ("-q", "quiet"), ("--quiet", "quiet"), ("-t", "testing"),
         ("-h", "help"), ("--help", "help"), ("--ungroup-debug-wires", "ungroup"), ("--trace-assignments", "trace"),
         ("--version", "version"), ("--bogus", "BAD"), ("-x", "BAD"), ("--debug", "debug")]
+# fixed first cases of every run: (program, image, timeout, number of positionals), run under -q
+CORPUS = [("ok_run", "good", "100000", 3), ("ok_run", "good", "123456", 3), ("ok_halt", "good", "100000", 3), ("div", "good", "100000", 3)]
 TIMEOUTS = ["0", "1", "2", "3", "5", "9999", "4294967295", "4294967296", "-1", "abc", "", "+3", " 3", "3 ", "0x10", "1e3", "99999999999999999999"]
 
 
@@ -269,7 +271,7 @@ def generate(binary, seed, count, outfile, workdir):
     for n, src in YO_EXTRA_NAMES.items():
         shutil.copy(os.path.join(workdir, src + ".yo"), os.path.join(workdir, n))
     with open(outfile, "w", encoding="utf-8") as f:
-        for _ in range(count):
+        for case_index in range(count):
             # positionals
             hcl = rnd.choice(["ok_halt", "ok_halt", "ok_run", "ok_err", "div", "rej", "syn", "missing", "dir", "syn_nbsp", "syn_wide", "syn_eof", "rej_uni", "ok_latin1", "ok_cr", "ok_big", "syn_0x_eof", "syn_0b_eof", "syn_bom"])
             traw = rnd.choice(TIMEOUTS + ["３", "٣", "3 ", "+", "+0", "007", "00000000004294967295", "-0", "++3"])
@@ -277,6 +279,11 @@ def generate(binary, seed, count, outfile, workdir):
                 hcl = "ok_halt"        # a non-halting program with a 2^32-1 budget would run for hours
             yo = rnd.choice(["good", "good", "good", "good", rnd.choice(BAD_YO), rnd.choice(BAD_YO), rnd.choice(BAD_YO), "empty", rnd.choice(ODD_YO), rnd.choice(sorted(OP_YO)), rnd.choice(sorted(OP_YO)), "missing", "image.txt", "dir"])
             nfree = rnd.choice([0, 1, 1, 2, 2, 2, 3, 3, 3, 4])
+            # the first cases of every run are fixed: long runs (a timeout of six digits is honoured exactly, by a program that
+            # never halts and by one that aborts early), which the random choice below reaches too rarely
+            corpus_case = case_index < len(CORPUS)
+            if corpus_case:
+                hcl, yo, traw, nfree = CORPUS[case_index]
             hclname = hcl + ".hcl"
             yoname = yo if yo == "image.txt" else yo + ".yo"
             if rnd.random() < 0.06:
@@ -310,8 +317,10 @@ def generate(binary, seed, count, outfile, workdir):
                 pieces = list(frees)
                 for o in opts:
                     pieces.insert(rnd.randrange(len(pieces) + 1), o)
+            if corpus_case:
+                pieces = [("-q", "opt", ["quiet"])] + [(x, "free", None) for x in [hcl + ".hcl", yo + ".yo", traw][:nfree]]
             # `--`: everything after it is a free argument, options included
-            if rnd.random() < 0.22:
+            if rnd.random() < 0.22 and not corpus_case:
                 pieces.insert(rnd.randrange(len(pieces) + 1), ("--", "term", None))
                 if rnd.random() < 0.15:
                     pieces.insert(rnd.randrange(len(pieces) + 1), ("--", "term", None))
